@@ -1562,7 +1562,38 @@ fn cold_child(threads: usize, seed: u64) {
             let gate = gate.clone();
             let rounds = rounds.clone();
             std::thread::spawn(move || -> Result<(), String> {
+              let gate2 = gate.clone();
+              let body = move || -> Result<(), String> {
+                // first jets of the process, on all threads at once (odd seeds: before any type
+                // table is touched; even seeds: after the rounds below)
+                let first_jets = |t: usize| -> Result<(), String> {
+                    let env = progs::dummy_env();
+                    for (j, want_ok) in [(Elements::One32, true), (Elements::Add32, true), (Elements::Verify, false)] {
+                        // comp (comp witness jet) unit, the witness all zero
+                        let plan = Plan { nodes: vec![PNode::Witness, PNode::Jet(j), PNode::Comp(0, 1), PNode::Unit, PNode::Comp(2, 3)] };
+                        let (_, arrows) = gen::arrows_of_plan(&plan, None, true).map_err(|e| format!("thread {t}: {j}: {e}"))?;
+                        let ty = arrows[0].as_ref().ok_or("no arrow")?.1.clone();
+                        let mut wits = HashMap::new();
+                        wits.insert(0usize, Value::zero(&ty));
+                        let red = gen::redeem_with(&plan, &wits, true).map_err(|e| format!("thread {t}: {j}: {e}"))?;
+                        let run = progs::run(&red, None, &env).map_err(|e| format!("thread {t}: {j}: {e}"))?;
+                        let ok = matches!(run.outcome, Outcome::Ok(_));
+                        if ok != want_ok {
+                            return Err(format!("thread {t}: the first execution of jet {j} on zero input {} (sequentially it {})", if ok { "succeeds" } else { "fails" }, if want_ok { "succeeds" } else { "fails" }));
+                        }
+                    }
+                    Ok(())
+                };
+                if seed % 2 == 1 {
+                    gate.fetch_add(1, Ordering::SeqCst);
+                    while gate.load(Ordering::SeqCst) < threads {
+                        std::hint::spin_loop();
+                    }
+                    first_jets(t)?;
+                }
+                let base = if seed % 2 == 1 { 1 } else { 0 };
                 for (ri, &n) in rounds.iter().enumerate() {
+                    let ri = ri + base;
                     // spin barrier: all threads enter round `ri` together
                     gate.fetch_add(1, Ordering::SeqCst);
                     while gate.load(Ordering::SeqCst) < (ri + 1) * threads {
@@ -1595,7 +1626,21 @@ fn cold_child(threads: usize, seed: u64) {
                         }
                     }
                 }
+                if seed % 2 == 0 {
+                    gate.fetch_add(1, Ordering::SeqCst);
+                    while gate.load(Ordering::SeqCst) < (rounds.len() + 1) * threads {
+                        std::hint::spin_loop();
+                    }
+                    first_jets(t)?;
+                }
                 Ok(())
+              };
+              let r = body();
+              if r.is_err() {
+                  // a thread that stops early must not leave the others spinning at the barrier
+                  gate2.fetch_add(usize::MAX / 4, Ordering::SeqCst);
+              }
+              r
             })
         })
         .collect();
@@ -1628,7 +1673,23 @@ fn cold_starts(ctx: &mut Ctx) {
         let threads = [16usize, 8, 32][(k % 3) as usize];
         let case = format!("cold {threads} {}", ctx.rng.below(1 << 30));
         let dir = ctx.out_dir.join("child");
-        match std::process::Command::new(&exe).args(["C20", "--case", &case, "--out"]).arg(&dir).output() {
+        let spawned = std::process::Command::new(&exe).args(["C20", "--case", &case, "--out"]).arg(&dir).stdout(std::process::Stdio::null()).stderr(std::process::Stdio::piped()).spawn();
+        let finished = spawned.and_then(|mut ch| {
+            let t0 = std::time::Instant::now();
+            loop {
+                if ch.try_wait()?.is_some() {
+                    return ch.wait_with_output();
+                }
+                if t0.elapsed() > Duration::from_secs(60) {
+                    let _ = ch.kill();
+                    let mut o = ch.wait_with_output()?;
+                    o.stderr.extend_from_slice(b"\ncold-bad the child did not finish within 60 s (deadlock or hang)");
+                    return Ok(o);
+                }
+                std::thread::sleep(Duration::from_millis(5));
+            }
+        });
+        match finished {
             Ok(o) => {
                 let stderr = String::from_utf8_lossy(&o.stderr).to_string();
                 let last = stderr.lines().last().unwrap_or("").to_string();
@@ -1636,7 +1697,7 @@ fn cold_starts(ctx: &mut Ctx) {
                 if o.status.success() && last == "cold-ok" {
                     ctx.count("reach:cold-start-child-ok");
                 } else {
-                    ctx.fail("result-differs-under-threads", &case, &format!("first use of the type tables on {threads} threads at once, in a fresh process: {last}"));
+                    ctx.fail("result-differs-under-threads", &case, &format!("first use of the type tables and of the jets on {threads} threads at once, in a fresh process: {last}"));
                 }
             }
             Err(e) => ctx.note(&format!("cold start: could not spawn a child process: {e}")),
